@@ -1,6 +1,6 @@
 #!/bin/bash
 # tools/trymut.sh <Cxx> <patch> [tier]  : apply patch to /repo, run the check, revert.
-P=$1; PATCH=$2; TIER=${3:-quick}
+P=$1; PATCH=$(readlink -f $2); TIER=${3:-quick}
 cd /repo || exit 9
 if ! git diff --quiet; then echo "/repo dirty"; exit 9; fi
 git apply "$PATCH" || { echo "patch does not apply"; exit 9; }
